@@ -301,7 +301,8 @@ func H11_verify() {
 // wideProgram: literals, calls and conditionals around the stack-growth and
 // operand-width boundaries either verify and evaluate like the closure
 // compiler, or are refused at compile time exactly beyond the capacities.
-func wideProgram(checkEquivalence bool) {
+func wideProgram(mode int) {
+	checkEquivalence := mode == 1
 	e := NewEngine()
 	sizes := []int{41, 42, 43, 255, 256, 257, 541, 542, 543}
 	if sv.Thorough() {
@@ -338,7 +339,7 @@ func wideProgram(checkEquivalence bool) {
 	}
 	tys := map[string]*types.Type{"a": types.Num, "b": types.Num, "c": types.Bool}
 	names := []string{"a", "b", "c"}
-	expr, _, cls := e.Front(src, tys, names)
+	expr, ty, cls := e.Front(src, tys, names)
 	sv.Assert("accepted", cls == "ok")
 	var prog vm.ZZProgram
 	ccls := sv.Outcome(func() { prog = vm.ZZCompileProgram(expr, e.Rt) })
@@ -375,6 +376,27 @@ func wideProgram(checkEquivalence bool) {
 		agree(res, c)
 		return
 	}
+	if mode == 3 {
+		// C01: every component of a wide result is present and well typed
+		for b := 0; b < NBackends; b++ {
+			if c[b] == "ok" {
+				sv.Assert("wide-result-well-typed:"+BackendNames[b], RefWellTyped(res[b], ty) == "")
+			}
+		}
+		return
+	}
+	if mode == 2 {
+		// C02: these are total programs; none may fail (the call-threaded
+		// loop's 1024-instruction limit is the recorded finding D4, under C03)
+		over := countInstructions(prog) >= 1024
+		for b := 0; b < NBackends; b++ {
+			if b == 1 && over {
+				continue
+			}
+			sv.Assert("total-program-evaluates:"+BackendNames[b], c[b] == "ok")
+		}
+		return
+	}
 	sv.Assert("evaluates-on-the-switch-loop", c[0] == "ok" && c[2] == "ok" && RefSameVal(res[0], res[2]))
 }
 
@@ -391,8 +413,16 @@ func countInstructions(p vm.ZZProgram) int {
 	return n
 }
 
-func H11_wide() { wideProgram(false) }
+func H11_wide() { wideProgram(0) }
+
+// H01_wide: results of wide / deep programs have every component present and
+// of the declared type (stack growth must not lose slots).
+func H01_wide() { wideProgram(3) }
+
+// H02_wide: wide and deep (total) programs never fail on any back end - the
+// stack-growth path and the operand-width asserts.
+func H02_wide() { wideProgram(2) }
 
 // H03_wide: the same wide / deep programs evaluate alike on all back ends.
-func H03_wide() { wideProgram(true) }
+func H03_wide() { wideProgram(1) }
 
